@@ -94,7 +94,8 @@ Record pstore := mkPS {
   ps_protos : list (Z * list Z);
   ps_keys : list (Z * N);
   ps_meta : list (Z * Z * Z);          (* peer, key, value *)
-  ps_maxprotos : Z }.                  (* memoryProtoBook.maxProtos *)
+  ps_maxprotos : Z;                    (* memoryProtoBook.maxProtos *)
+  ps_pcap : Z }.                       (* memoryAddrBook.maxAddrsPerPeer (0 = no cap) *)
 
 Fixpoint alist_get {V} (p : Z) (l : list (Z * V)) : option V :=
   match l with [] => None | (q, v) :: r => if q =? p then Some v else alist_get p r end.
@@ -113,6 +114,48 @@ Definition to_raw (p : Z) (w : waddr) : raw :=
 (* peer.SplitAddr returns a nil transport for a bare /p2p/q: skipped by the book *)
 Definition has_transport (w : waddr) : bool := negb (w_id w =? 0).
 
+(* ---- AddAddrs with the book's per-peer cap (addr_book.go addAddrsUnlocked) ---------
+   A known address is extended (never shortened).  A new one, when its TTL is
+   below the connected class and the peer already holds [cap] addresses below
+   that class, first evicts the peer's unconnected entry with the nearest
+   expiry (dropped itself if there is none); entries in the connected class
+   bypass the cap.  Among entries with the same expiry the implementation
+   evicts whichever its map iteration meets first; the model takes the first
+   in its list — the correspondence stops comparing a case once an eviction
+   happened, the monitor keeps judging it. *)
+Definition is_unconn (t : Z) : bool := t <? ConnectedAddrTTL.
+Definition unconn_of (p : Z) (e : aent) : bool := (ep e =? p) && is_unconn (ettl e).
+
+Fixpoint min_exp (l : list aent) : option aent :=
+  match l with
+  | [] => None
+  | e :: r => match min_exp r with
+              | Some m => if eexp m <? eexp e then Some m else Some e
+              | None => Some e
+              end
+  end.
+
+Definition must_evict (cap p ttl : Z) (ents : list aent) (a : Z) : bool :=
+  match find_ent p a ents with
+  | Some _ => false
+  | None => (0 <? cap) && is_unconn ttl && (cap <=? Z.of_nat (length (filter (unconn_of p) ents)))
+  end.
+
+Definition cadd_one (cap p ttl now : Z) (ents : list aent) (a : Z) : list aent :=
+  if must_evict cap p ttl ents a then
+    match min_exp (filter (unconn_of p) ents) with
+    | Some v => upsert_ext p a ttl (now + ttl) (remove_ent p (ea v) ents)
+    | None => ents
+    end
+  else upsert_ext p a ttl (now + ttl) ents.
+
+Definition cadd_list (cap p ttl now : Z) (l : list Z) (ents : list aent) : list aent :=
+  fold_left (cadd_one cap p ttl now) l ents.
+
+Definition c_add (cap : Z) (s : abook) (p : Z) (addrs : list raw) (ttl : Z) : abook :=
+  if ttl <=? 0 then s
+  else mk_norm (a_now s) (cadd_list cap p ttl (a_now s) (clean_addrs addrs) (a_ents s)) (a_recs s).
+
 Section Ext.
 Variable verify : N -> term -> term -> bool.
 Variable id_of : N -> Z.
@@ -125,21 +168,21 @@ Definition apply_op (s : pstore) (o : psop) : pstore :=
   match o with
   | PSetProtocols p l =>
       if ps_maxprotos s <? Z.of_nat (length l) then s
-      else mkPS (ps_book s) (alist_set p l (ps_protos s)) (ps_keys s) (ps_meta s) (ps_maxprotos s)
+      else mkPS (ps_book s) (alist_set p l (ps_protos s)) (ps_keys s) (ps_meta s) (ps_maxprotos s) (ps_pcap s)
   | PUpdateAddrs p old new =>
-      mkPS (a_update (ps_book s) p old new) (ps_protos s) (ps_keys s) (ps_meta s) (ps_maxprotos s)
+      mkPS (a_update (ps_book s) p old new) (ps_protos s) (ps_keys s) (ps_meta s) (ps_maxprotos s) (ps_pcap s)
   | PAddAddrs p l ttl =>
-      mkPS (a_add (ps_book s) p (map (to_raw p) (filter has_transport l)) ttl)
-           (ps_protos s) (ps_keys s) (ps_meta s) (ps_maxprotos s)
-  | PPut p k v => mkPS (ps_book s) (ps_protos s) (ps_keys s) (meta_set p k v (ps_meta s)) (ps_maxprotos s)
+      mkPS (c_add (ps_pcap s) (ps_book s) p (map (to_raw p) (filter has_transport l)) ttl)
+           (ps_protos s) (ps_keys s) (ps_meta s) (ps_maxprotos s) (ps_pcap s)
+  | PPut p k v => mkPS (ps_book s) (ps_protos s) (ps_keys s) (meta_set p k v (ps_meta s)) (ps_maxprotos s) (ps_pcap s)
   | PPubKey p =>
       match alist_get p (ps_keys s), inline_key p with
-      | None, Some k => mkPS (ps_book s) (ps_protos s) (alist_set p k (ps_keys s)) (ps_meta s) (ps_maxprotos s)
+      | None, Some k => mkPS (ps_book s) (ps_protos s) (alist_set p k (ps_keys s)) (ps_meta s) (ps_maxprotos s) (ps_pcap s)
       | _, _ => s
       end
   | PAddPubKey p k =>
       if id_of k =? p
-      then mkPS (ps_book s) (ps_protos s) (alist_set p k (ps_keys s)) (ps_meta s) (ps_maxprotos s)
+      then mkPS (ps_book s) (ps_protos s) (alist_set p k (ps_keys s)) (ps_meta s) (ps_maxprotos s) (ps_pcap s)
       else s
   end.
 
@@ -316,7 +359,7 @@ Definition handle_response (s : sys) (c : Z) (cs : list chunk) (push : bool) : o
 
 Definition advance_book (s : sys) (d : Z) : sys :=
   with_ps s (mkPS (a_advance (ps_book (s_ps s)) d) (ps_protos (s_ps s)) (ps_keys (s_ps s))
-                  (ps_meta (s_ps s)) (ps_maxprotos (s_ps s))).
+                  (ps_meta (s_ps s)) (ps_maxprotos (s_ps s)) (ps_pcap (s_ps s))).
 
 Definition finish_task (s : sys) (ch : Z) : sys :=
   mkSys (s_ps s) (s_net s) (s_pend s) (s_closed s) (s_entries s)
